@@ -3,6 +3,7 @@ package symex
 import (
 	"fmt"
 	"go/types"
+	"regexp"
 	"strings"
 
 	"golang.org/x/tools/go/ssa"
@@ -257,6 +258,14 @@ func init() {
 		pat := e.mustConstString(args[0], "regexp pattern")
 		o := e.newObj(nil, Opaque{Kind: "regexp", Data: pat})
 		return Ptr{Obj: o}
+	}
+	stubs["regexp.Compile"] = func(e *Exec, fn *ssa.Function, args []Value) Value {
+		pat := e.mustConstString(args[0], "regexp pattern")
+		if _, err := regexp.Compile(pat); err != nil {
+			return Tuple{Ptr{}, e.newErr("regexp.Compile")}
+		}
+		o := e.newObj(nil, Opaque{Kind: "regexp", Data: pat})
+		return Tuple{Ptr{Obj: o}, nilErr()}
 	}
 	stubs["(*regexp.Regexp).MatchString"] = func(e *Exec, fn *ssa.Function, args []Value) Value {
 		pat := e.load(args[0]).(Opaque).Data.(string)
@@ -593,23 +602,27 @@ func (e *Exec) callStubByName(name string, recv Value, args []Value, c *ssa.Call
 func (e *Exec) recordEvent(ev Iface) {}
 
 func init() {
-	stubs["github.com/cosmos/cosmos-sdk/types/query.Paginate"] = func(e *Exec, fn *ssa.Function, args []Value) Value {
+	// query.Paginate / FilteredPaginate are executed from their real SDK source (limit / offset /
+	// count_total / reverse); only the iterator constructor is modelled. Key-based paging
+	// (PageRequest.Key) needs byte-lexicographic seeks and is not modelled.
+	execFuncs["github.com/cosmos/cosmos-sdk/types/query.Paginate"] = true
+	execFuncs["github.com/cosmos/cosmos-sdk/types/query.FilteredPaginate"] = true
+	stubs["github.com/cosmos/cosmos-sdk/types/query.getIterator"] = func(e *Exec, fn *ssa.Function, args []Value) Value {
 		ref := e.storeRefOf(args[0])
-		cb := args[2].(*Func)
-		it := e.makeIter(ref, nil).(Iface).Val.(Opaque).Data.(*iterData)
-		e.Notes["stub query.Paginate (PAGINATE): the callback is invoked exactly once for every entry under the given prefix store (complete traversal); page arithmetic (limit/offset/key/reverse/count_total) is SDK code and not decided"] = true
-		for _, en := range it.entries {
-			_, rest := e.keyHasPrefix(en.Key, ref.Prefix)
-			k := e.itemsToBytes(rest)
-			v := e.copyBytes(en.Val)
-			r := e.callFn(cb.Fn, []Value{k, v}, cb.Bindings, nil)
-			if !isNilIface(r) {
-				return Tuple{Ptr{}, r}
+		start := args[1].(Bytes)
+		if !(start.Nil || (start.Len.IsConst() && start.Len.Val == 0)) {
+			panic(engineErr("key-based pagination (PageRequest.Key) is not modelled"))
+		}
+		it := e.makeIter(ref, nil).(Iface)
+		rev := args[2].(*smt.Term)
+		if e.branch(rev) {
+			d := it.Val.(Opaque).Data.(*iterData)
+			for i, j := 0, len(d.entries)-1; i < j; i, j = i+1, j-1 {
+				d.entries[i], d.entries[j] = d.entries[j], d.entries[i]
 			}
 		}
-		prT := fn.Signature.Results().At(0).Type().(*types.Pointer).Elem()
-		o := e.newObj(prT, e.zero(prT))
-		return Tuple{Ptr{Obj: o}, nilErr()}
+		e.Notes["query.Paginate/FilteredPaginate executed from SDK source over the symbolic store (offset, limit, count_total, reverse); key-based paging not modelled"] = true
+		return it
 	}
 }
 
